@@ -5,7 +5,7 @@ PROPERTY = "C16"
 
 
 def tasks(tier):
-    return (contract_tasks("contracts.merge_ded", "C16") + contract_tasks("contracts.set_data_ded", "C16") + contract_tasks("contracts.scheduler", "C16", tier=tier) + contract_tasks("contracts.sim_process", "C16", tier=tier)
+    return (contract_tasks("contracts.merge_ded", "C16") + contract_tasks("contracts.set_data_ded", "C16") + contract_tasks("contracts.get_data_ded", "C16") + contract_tasks("contracts.scheduler", "C16", tier=tier) + contract_tasks("contracts.sim_process", "C16", tier=tier)
             + contract_tasks("contracts.progress", "C16", tier=tier) + lemma_tasks("contracts.progress", "C16")
             + contract_tasks("contracts.connect", "C16", tier=tier) + other_tasks("contracts.dataplane_bounded", "C16", "bounded")
             + other_tasks("contracts.determinism_bounded", "C16", "bounded")
@@ -15,7 +15,7 @@ def tasks(tier):
 TRUSTED_BASE = TRUSTED_CORE
 ASSUMPTIONS = SCHED_ASSUMPTIONS + ['MosaikRemote.set_data (contract contracts.set_data_ded): strings uninterpreted, full_id.split(\'.\', 1) = (sid, eid) assumed jointly injective, distinct simulator ids name distinct SimRunners, _assert_async_requests through its contract, dict levels walked in arbitrary order each key once; the consumer side (get_input_data empties the table and merges it into the next step\'s inputs) is checked by a bounded stand-in (stated bound in coverage.bounded)']
 NOT_COVERED = ["'exactly once, in A's next step': the producer side (set_data stores every value under its source at the addressed entity / attribute, touches nothing else, never writes into a refusing simulator) is proved; the consumer side (get_input_data: three-level dict merging) is decided by the bounded stand-in only"]
-LEVEL_TEXT = "Ghost assertion C16 at BEGIN from wait_for_dependencies' postcondition for successors_to_wait_for (A does not begin a later step before B's step has finished); _assert_async_requests refuses exactly the pairs without an async_requests connection (ScenarioError iff); connect_async_requests records the pair; MosaikRemote.set_data (contract, data of arbitrary size): every value is stored under its source at the addressed simulator / entity / attribute, every other slot of every table is untouched, ScenarioError IFF an addressed simulator does not allow the request and nothing is ever written into such a simulator's table; the consumer side (get_input_data) by a bounded stand-in. End to end (BOUNDED, not a proof): an agent sending set_data over an async_requests connection in real runs (2 scenarios x all configurations / interleavings of the harness) against the sequential reference semantics: delivered exactly once, in the next step. MosaikRemote.get_data (refusal iff some addressed simulator lacks the connection) by a BOUNDED stand-in."
+LEVEL_TEXT = "Ghost assertion C16 at BEGIN from wait_for_dependencies' postcondition for successors_to_wait_for (A does not begin a later step before B's step has finished); _assert_async_requests refuses exactly the pairs without an async_requests connection (ScenarioError iff); connect_async_requests records the pair; MosaikRemote.set_data (contract, data of arbitrary size): every value is stored under its source at the addressed simulator / entity / attribute, every other slot of every table is untouched, ScenarioError IFF an addressed simulator does not allow the request and nothing is ever written into such a simulator's table; the consumer side (get_input_data) by a bounded stand-in. MosaikRemote.get_data (contract, requests of arbitrary size): ScenarioError IFF an addressed simulator does not allow the request and then NO simulator is asked anything; otherwise at most one get_data request per addressed simulator, exactly for the values the cache did not answer. End to end (BOUNDED, not a proof): an agent sending set_data over an async_requests connection in real runs (2 scenarios x all configurations / interleavings of the harness) against the sequential reference semantics: delivered exactly once, in the next step. MosaikRemote.get_data (refusal iff some addressed simulator lacks the connection) by a BOUNDED stand-in."
 DESIGN_REF = "DESIGN.md section 8 (C16)"
 LEVEL_NOTE = 'Proved for any number of simulators, any topology, any reply values and every interleaving, under the listed assumptions (evidence: assumptions, coverage.trusted_base). Trusted: pyvc encoder, the rely/guarantee meta-theorem, assumed contracts of asyncio/heapq, the time/delay algebra axioms (C08 provenance), static connection-table facts, z3/cvc5.'
 TECHNIQUE = 'contract-based deductive verification (AST->z3 VCs on the real functions, global invariant, rely/guarantee at awaits); MosaikRemote.set_data under contract (stored / frame / refused); bounded stand-in for the consumer side get_input_data'
